@@ -381,3 +381,53 @@ def rewrite_stubs():
         fn = getattr(owner, attr)
         out.append((owner, attr, rewrite_listcomps(fn)))
     return out
+
+
+# ----------------------------------------------------------------------------------------
+# hygiene: the symbolic executor must not leave symbolic objects in process-global state of the code under test
+
+
+def _is_symbolic_obj(x, depth=0):
+    mod = type(x).__module__ or ""
+    if mod.startswith("fvc") or mod.startswith("z3"):
+        return True
+    if depth < 2:
+        if isinstance(x, dict):
+            return any(_is_symbolic_obj(v, depth + 1) or _is_symbolic_obj(k, depth + 1) for k, v in list(x.items()))
+        if isinstance(x, (list, tuple, set)):
+            return any(_is_symbolic_obj(v, depth + 1) for v in list(x))
+    return False
+
+
+def scrub_symbolic_leftovers():
+    """mutable default arguments of flodym functions that hold symbolic objects after a symbolic run (code that
+    stores something in a default dict / list / set) are emptied of those objects: they are artefacts of the proxy
+    execution and would crash the concrete runs that follow in the same process.  Concrete objects stay, so state the
+    *code* carries from call to call remains visible to the concrete runs."""
+    import importlib
+    import inspect
+
+    for mname in FLODYM_MODULES:
+        try:
+            mod = importlib.import_module(mname)
+        except Exception:
+            continue
+        fns = []
+        for _, obj in vars(mod).items():
+            if inspect.isfunction(obj):
+                fns.append(obj)
+            elif inspect.isclass(obj) and getattr(obj, "__module__", None) == mname:
+                for _, m in vars(obj).items():
+                    f = getattr(m, "__func__", None) or getattr(m, "fget", None) or m
+                    if inspect.isfunction(f):
+                        fns.append(f)
+        for f in fns:
+            for d in list(f.__defaults__ or ()) + list((f.__kwdefaults__ or {}).values()):
+                if isinstance(d, dict):
+                    for k in [k for k, v in list(d.items()) if _is_symbolic_obj(v) or _is_symbolic_obj(k)]:
+                        del d[k]
+                elif isinstance(d, list):
+                    d[:] = [v for v in d if not _is_symbolic_obj(v)]
+                elif isinstance(d, set):
+                    for v in [v for v in list(d) if _is_symbolic_obj(v)]:
+                        d.discard(v)
